@@ -8,7 +8,7 @@ from props import bulk_probe
 ID = "C03"
 COQ_TARGETS = ["Run/Run_Gossip.vo", "Run/Run_Round.vo"]
 META = {
-    "text": "Theorems (Properties/C03.v) over the Gallina world model: a caught-up view equals the owner's state exactly (keys, values, tombstones, version); no step of the world other than a local write ever increases the total deficit PsiAll or moves any reported version backwards (loss, duplication, reordering, truncation, relays, streams included); one complete digest/delta exchange a <- b on a quiet network, composed from the real handlers (WSend + deliveries), strictly decreases PsiAll whenever a is behind b's own state, a's digest lists b and the first entry of the reply fits (C03_pull_makes_progress: whatever node the cut reply starts with - id closure of the cluster is proved as an invariant); hence ANY sequence of at least PsiAll all-pairs rounds of such exchanges ends with PsiAll = 0 and a quiet network (C03_rounds_converge), and PsiAll = 0 means every view IS the owner's state (C03_converged_views); a concrete two-node instance satisfies every hypothesis (C03_rounds_example). The same schedules are run on the REAL nodes on every run: after a random lossy/compacting prefix and a backlog of mixed-size entries larger than one packet, all-pairs rounds of loss-free exchanges with packet sizes 215..1400; an independent monitor checks the deficit never increases, strictly decreases every round until all live views equal the owners' states, and model and implementation agree on every packet and view. Who a running node exchanges with is modelled too (Gossip/Round.v, gossipRound over LiveNodes/UnreachableNodes with Go's map order and random numbers as oracles): every live and every unreachable peer is the target for a whole residue class of the random number, a sequence of rounds hitting every residue contacts them all, and what a round sends is a legal observation (C03_round_reaches_every_live_peer, C03_rounds_cover, C03_round_targets_legal) - compared with ~2000 real gossipRound calls per run on memberships with live, suspected and departed peers. Bulk pulls of 300-4200 entries through the real datagram exchange (monitor only: every datagram fits, no hole below the reported version after any round, final view = owner's state).",
+    "text": "Theorems (Properties/C03.v) over the Gallina world model: a caught-up view equals the owner's state exactly (keys, values, tombstones, version); no step of the world other than a local write ever increases the total deficit PsiAll or moves any reported version backwards (loss, duplication, reordering, truncation, relays, streams included); one complete digest/delta exchange a <- b on a quiet network, composed from the real handlers (WSend + deliveries), strictly decreases PsiAll whenever a is behind b's own state, a's digest lists b and the first entry of the reply fits (C03_pull_makes_progress: whatever node the cut reply starts with - id closure of the cluster is proved as an invariant); hence ANY sequence of at least PsiAll all-pairs rounds of such exchanges ends with PsiAll = 0 and a quiet network (C03_rounds_converge), and PsiAll = 0 means every view IS the owner's state (C03_converged_views); a concrete two-node instance satisfies every hypothesis (C03_rounds_example). The same schedules are run on the REAL nodes on every run: after a random lossy/compacting prefix and a backlog of mixed-size entries larger than one packet, all-pairs rounds of loss-free exchanges with packet sizes 215..1400; an independent monitor checks the deficit never increases, strictly decreases every round until all live views equal the owners' states, and model and implementation agree on every packet and view. Who a running node exchanges with is modelled too (Gossip/Round.v, gossipRound over LiveNodes/UnreachableNodes with Go's map order and random numbers as oracles): every live and every unreachable peer is the target for a whole residue class of the random number, a sequence of rounds hitting every residue contacts them all, and what a round sends is a legal observation (C03_round_reaches_every_live_peer, C03_rounds_cover, C03_round_targets_legal) - compared with ~2000 real gossipRound calls per run on memberships with live, suspected and departed peers. Bulk pulls of 300-4200 entries through the real datagram exchange (monitor only: every datagram fits, no hole below the reported version after any round, final view = owner's state). The legality check the harness applies to real rounds is proved sound and complete for the model (C03_round_targets_legal, C03_round_legal_complete); the variant 'cap the delta before the sort' is refuted (C03_capped_delta_variant_refuted).",
     "note": "Partial: that the running node's random peer selection and timers produce such a schedule (fairness), and exchanges overlapping in time, are not modelled (for arbitrary interleavings only no-regress is proved). An entry larger than max_packet_size - headers blocks dissemination for ever (finding G1, KNOWN_FINDINGS.txt): the theorems carry the hypothesis 'roomy', the witness is replayed on every run.",
     "technique": "Coq proof (deficit measure: monotone + strict progress per exchange under 'fits') + convergence campaigns on real nodes with a deficit monitor + model/implementation correspondence + peer-selection model with legality check of real rounds + bulk-pull probe (monitor only)",
 }
